@@ -26,19 +26,42 @@ func jobsFor(prop, tier string) []Job {
 	switch prop {
 	case "C01":
 		mk := func(name string, p map[string]int, eager bool, sched int) Job {
-			return Job{Name: name, Pkg: "", Fn: "VH_C01", Inits: true, FilterSummary: true, Samples: 4, Params: p, Eager: eager, Sched: sched > 0, MaxDev: sched,
+			return Job{Name: name, Pkg: "", Fn: "VH_C01", Inits: true, Samples: 4, Params: p, Eager: eager, Sched: sched > 0, MaxDev: sched,
 				Bounds:  map[string]any{"transactions": p["N"], "universe": "KEYS keys of [a, a@, a!, b, a@1] starting at K0", "ops_per_txn": "1 (2 when OPS2=1)", "values": "1 symbolic byte, empty value, or delete", "MemtableByteThreshold": "symbolic 1..120", "DataBlockByteThreshold": "symbolic 1..40", "ImmutableBuffer": "0..IBMAX", "L0TargetNum": "1..L0MAX", "LevelRatio": "1..RATIOMAX", "background_policy": map[bool]string{true: "eager (runs to quiescence at every sync point of the API goroutine)", false: "lazy (runs when the API goroutine blocks or drains)"}[eager], "preemption_bound": sched, "params": p},
-				Assumes: []string{aFilter, aS2, aFS, aClock, "skiplist level coins fixed (levels are C17's subject)", "utils.Hash executed exactly on the concrete keys"},
+				Assumes: []string{"bloom filter: the real filter code and the real murmur3 run on the concrete keys", aS2, aFS, aClock, "skiplist level coins fixed (levels are C17's subject)", "utils.Hash executed exactly on the concrete keys"},
 				Outside: []string{"longer histories; values longer than one byte (C11 covers sizes); I/O errors; keys outside the 5-key adversarial universe"}}
 		}
 		js = []Job{
-			mk("c01-n3-drain", params("N", 3, "KEYS", 2, "DRAIN", 1), false, 0),
-			mk("c01-n3-lazy", params("N", 3, "KEYS", 2, "DRAIN", 0, "K0", 1), false, 0),
+			mk("c01-n3-drain", params("N", 3, "KEYS", 2, "DRAIN", 1, "L0MAX", 2), false, 0),
+			mk("c01-n2-drain-ops2-k3", params("N", 2, "KEYS", 3, "DRAIN", 1, "OPS2", 1, "KINDS", 3), false, 0),
+			mk("c01-n3-lazy", params("N", 3, "KEYS", 2, "DRAIN", 0, "K0", 1, "IBMAX", 2), false, 0),
+			mk("c01-n3-eager", params("N", 3, "KEYS", 2, "DRAIN", 0, "K0", 3), true, 0),
 		}
 		if thorough {
-			js = append(js, mk("c01-n4-drain-ops2", params("N", 4, "KEYS", 3, "DRAIN", 1, "OPS2", 1, "IBMAX", 2, "L0MAX", 2, "RATIOMAX", 2), false, 0),
-				mk("c01-n3-eager", params("N", 3, "KEYS", 2, "DRAIN", 0, "K0", 3), true, 0),
+			js = append(js, mk("c01-n4-drain", params("N", 4, "KEYS", 2, "DRAIN", 1, "L0MAX", 2), false, 0),
+				mk("c01-n3-drain-ops2-k3", params("N", 3, "KEYS", 3, "DRAIN", 1, "OPS2", 1, "KINDS", 3), false, 0),
+				mk("c01-n5-drain", params("N", 5, "KEYS", 2, "DRAIN", 1, "IBMAX", 2, "L0MAX", 2, "RATIOMAX", 2), false, 0),
+				mk("c01-n4-drain-ops2-k3", params("N", 4, "KEYS", 3, "DRAIN", 1, "OPS2", 1, "KINDS", 3, "K0", 1), false, 0),
+				mk("c01-n5-lazy", params("N", 5, "KEYS", 2, "DRAIN", 0, "K0", 3, "IBMAX", 2), false, 0),
+				mk("c01-n4-eager", params("N", 4, "KEYS", 2, "DRAIN", 0, "K0", 0, "L0MAX", 2), true, 0),
 				mk("c01-n3-sched2", params("N", 3, "KEYS", 2, "DRAIN", 0), false, 2))
+		}
+	case "C02":
+		mk := func(name string, p map[string]int, sameSecond bool) Job {
+			return Job{Name: name, Pkg: "", Fn: "VH_C02", Inits: true, Samples: 4, Params: p, SameSecond: sameSecond,
+				Bounds:  map[string]any{"transactions": p["N"], "close_open_cycles": p["CYCLES"], "cycle_positions": "every split of the N transactions over the runs (forked)", "universe": "KEYS keys of [a, a@, a!, b, a@1] from K0", "config_per_run": "MemtableByteThreshold symbolic 1..120, block size {1,40}, ImmutableBuffer 0..IBMAX; L0TargetNum/LevelRatio fixed for the directory", "clock": map[bool]string{true: "all WAL files created within one second (nanosecond part 3,6,9,12,.. decides)", false: "one second per time.Now call"}[sameSecond], "params": p},
+				Assumes: []string{"bloom filter: the real filter code and the real murmur3 run on the concrete keys", aS2, aFS, aClock, "frugal/thrift-binary model of types.Entry"},
+				Outside: []string{"longer histories, more than 2 cycles", "clock stepping backwards between runs"}}
+		}
+		js = []Job{
+			mk("c02-n3-1cycle", params("N", 3, "CYCLES", 1, "KEYS", 2, "BLKMAX", 0), false),
+			mk("c02-n3-1cycle-drain", params("N", 3, "CYCLES", 1, "KEYS", 2, "K0", 1, "DRAIN", 1, "IBMAX", 0), true),
+			mk("c02-n2-2cycles", params("N", 2, "CYCLES", 2, "KEYS", 2, "K0", 3, "BLKMAX", 0), true),
+		}
+		if thorough {
+			js = append(js, mk("c02-n4-2cycles", params("N", 4, "CYCLES", 2, "KEYS", 2, "IBMAX", 2), true),
+				mk("c02-n4-1cycle-drain", params("N", 4, "CYCLES", 1, "KEYS", 3, "DRAIN", 1, "L0MAX", 2), false),
+				mk("c02-n3-2cycles-ops2", params("N", 3, "CYCLES", 2, "KEYS", 2, "OPS2", 1, "K0", 2), false))
 		}
 	case "C09":
 		mk := func(name string, p map[string]int) Job {
